@@ -34,6 +34,17 @@ def pctr_parts(quick):
                       (2 * bs, 1), (3 * bs + 3, bs - 1), (4 * bs + 1, bs), (5, bs - 5), (5, bs - 4), (2, bs - 1)]
         out += ["pctr_%s_%d_%d" % (c, sz, off) for sz, off in cfgs]
     return out
+# parallel ECB functionally, both callees as procedure calls (WholePar.v): zero blocks, fewer than a group, whole groups, groups
+# plus left-over blocks, per back end and direction
+def ppar_parts(quick):
+    out = []
+    for c, bs, bes in (("c128", 16, (("def", 64), ("v128", 64), ("v256", 128))), ("c64", 8, (("def", 32), ("v128", 64)))):
+        for be, ps in bes:
+            if quick: sizes = [ps + 3 * bs] if be != "def" else [3 * bs]
+            else: sizes = [0, bs, ps - bs, ps, ps + bs, 2 * ps, 2 * ps + 3 * bs, 3 * ps + (ps - bs)]
+            for d in ("enc", "dec"):
+                out += ["ppar_%s_%s_%s_%d" % (c, be, d, sz) for sz in sizes]
+    return out
 def key_parts(w, quick):
     bs = 16 if w == "128" else 8
     fam = "key" + w
